@@ -18,7 +18,7 @@ import struct
 
 from vlib import core, corr
 
-DEPENDS = ["Timers", "TimersP", "TimersFull", "TimersFullSpec", "TimersFullP", "TimersFullLink", "TimersFullAck", "Recovery", "RecBase", "AckQueue", "C12Consts", "C09Consts", "Base", "Tok", "C09"]
+DEPENDS = ["Timers", "TimersP", "TimersCloseP", "TimersFull", "TimersFullSpec", "TimersFullP", "TimersFullLink", "TimersFullAck", "Recovery", "RecBase", "AckQueue", "C12Consts", "C09Consts", "Base", "Tok", "C09"]
 GENERATORS = ["c09_consts"]
 TRUSTED_BASE = [
     "extraction (ExtrOcamlBasic only; Z kept inductive) + coq/extract/driver.ml for running coq/model/Timers.v",
@@ -44,6 +44,15 @@ TRUSTED_BASE = [
     "transitions of the sub-state BETWEEN these calls (receive side, packet registration) are not replayed by this suite -- for "
     "ack_at that is C12's tie, for recovery C08's",
     "tools/gen/c09_consts.py: PACING_RESET probed from the source of datagrams_to_send (AST), fail closed",
+    "tools/gen/c09_consts.py: CLOSE_BEGIN_UNCONDITIONAL -- position of `self._close_pending = False; self._close_begin(is_initiator=True, "
+    "now=now)` in datagrams_to_send (last two statements of the top-level close branch, flush only afterwards); any other recognisable "
+    "position gives false (proofs/TimersCloseP.v then fails), anything else fails closed",
+    "close round (session 5): compared observables after EVERY op now include _close_pending and _close_at (LABELLED PEEKS); the oracle's "
+    "notion of 'the endpoint decided to close' is close() on a started live connection (public) or _close_pending turning true inside "
+    "receive_datagram (peek); 'can transmit' = _network_paths non-empty (peek); which epochs have send keys (_cryptos[*].send.is_valid()) "
+    "is read for the evidence statistics only; the Retry-token scenarios use a local subclass of sim.Pair (listener issuing tokens of a "
+    "chosen length) and, for a client that holds only Initial keys derived from the Retry's SCID, tell the wire observer that SCID so the "
+    "puppet can build Initial packets (reads _retry_count and host_cid of the client)",
 ]
 ASSUMPTIONS = [
     "the caller fires handle_timer(now) with now >= get_timer() (the property's own premise); handle_timer is "
@@ -78,6 +87,26 @@ def PACING_RESET():
         except Exception:  # noqa: BLE001  (the generator failed closed: the build step has already reported it)
             _PR.append(False)
     return _PR[0]
+
+
+_CB = []
+
+
+def CLOSE_BEGIN_UNCONDITIONAL():
+    """Same probe: are `_close_pending = False; _close_begin(...)` the last statements of the close branch (statistics only: the
+    model the runs are compared with always has the unconditional transition)."""
+    if not _CB:
+        PACING_RESET()
+        import importlib.util
+        import os
+        try:
+            spec = importlib.util.spec_from_file_location("c09_consts_probe2", os.path.join(core.VERIF, "tools", "gen", "c09_consts.py"))
+            mod = importlib.util.module_from_spec(spec)
+            spec.loader.exec_module(mod)
+            _CB.append(bool(mod.read_consts()["CLOSE_BEGIN_UNCONDITIONAL"]))
+        except Exception:  # noqa: BLE001
+            _CB.append(None)
+    return _CB[0]
 
 
 def enc(x):
@@ -139,6 +168,8 @@ class Tracer:
         self.closing_since = None
         self.closing_deadline = None
         self.closing_wire = None      # (index into wire_log at that moment, datagrams allowed afterwards)
+        self.close_req = None         # when this endpoint decided to close (close() / locally detected error)
+        self.close_round = None       # (time, datagrams produced, keys) of the first datagrams_to_send after that
         self.idle_ub = None
         self.idle_lb = None
         self.term_time = None
@@ -153,7 +184,8 @@ class Tracer:
     def peek(self):
         c = self.ep.conn
         return {"pto": c._loss.get_probe_timeout(), "remote": c._remote_max_idle_timeout,
-                "pending": c._close_pending, "state": c._state.name, "qlen": len(c._events)}
+                "pending": bool(c._close_pending), "state": c._state.name, "qlen": len(c._events),
+                "close_at": c._close_at, "path": bool(c._network_paths)}
 
     def hook_qlog(self):
         c = self.ep.conn
@@ -371,7 +403,7 @@ class Tracer:
         if self.dead:
             return
         self.tin += tin
-        self.tout += tout + [STATE_CLASS[post["state"]], post["qlen"]]
+        self.tout += tout + [STATE_CLASS[post["state"]], post["qlen"], 1 if post["pending"] else 0] + opt(post["close_at"])
         self.ops += 1
         self.opnames[name] = self.opnames.get(name, 0) + 1
         if len(self.log) < 4000:
@@ -520,6 +552,30 @@ class Tracer:
                 self.idle_lb = min(cands)
             if processed and post["state"] in ("FIRSTFLIGHT", "CONNECTED") and not post["pending"]:
                 self.idle_lb = min(c for c in cands[1:])
+        # ---- the close round.  The endpoint decided to close: close() on a started live connection (public), or a
+        # close it decided on itself while receiving (LABELLED PEEK: _close_pending turned true).  The FIRST
+        # datagrams_to_send that follows on a connection that can transmit (LABELLED PEEK: it has a network path) starts the
+        # closing period WHETHER OR NOT it returns anything: state CLOSING afterwards, termination due 3 * PTO (of this
+        # moment) later, nothing is sent any more.  A server that never adopted a path has nobody to tell: it waits for
+        # its idle deadline (O6 in docs/C09.md), which the idle bound below covers.
+        live_pre = pre["state"] in ("FIRSTFLIGHT", "CONNECTED")
+        if self.close_round is not None and name == "datagrams_to_send" and res:
+            self.violation("datagrams_to_send returned %d datagram(s) after the close round" % len(res), check="send-after-close-round")
+        if self.close_req is None and self.started and not self.term_popped and self.closing_since is None and exc is None and live_pre:
+            if name == "close" or (post["pending"] and not pre["pending"]):
+                self.close_req = now
+        if name == "datagrams_to_send" and exc is None and self.close_req is not None and self.close_round is None \
+                and live_pre and pre["path"] and not self.term_popped and self.closing_since is None:
+            self.close_round = (now, len(res or []), self.send_keys())
+            if post["state"] != "CLOSING" or post["pending"]:
+                self.violation("the first datagrams_to_send after the close (requested at %.6f) returned %d datagram(s) and left the "
+                               "connection %s%s: the closing period did not start" % (
+                                   self.close_req, len(res or []), post["state"], " with the close still pending" if post["pending"] else ""),
+                               check="close-round-not-closing", produced=bool(res))
+                # the property's deadline runs from this call all the same
+                self.closing_since = now
+                self.closing_deadline = now + 3 * post["pto"]
+                self.closing_wire = (len(self.pair.network.wire_log), len(res or []))
         # closing begins (LABELLED PEEK of _state): deadline = now + 3 * PTO of this endpoint at this moment
         if pre["state"] in ("FIRSTFLIGHT", "CONNECTED") and post["state"] in ("CLOSING", "DRAINING"):
             self.closing_since = now
@@ -551,6 +607,20 @@ class Tracer:
             if res is None and self.none_pending and not self.term_popped:
                 self.violation("get_timer() was None although no ConnectionTerminated has been reported", check="timer-none")
                 self.none_pending = False
+
+    def send_keys(self):
+        """LABELLED PEEK, statistics only: which epochs have send keys (the handshake stage of a close round)."""
+        try:
+            ks = [e.name for e, cp in self.ep.conn._cryptos.items() if cp.send.is_valid()]
+        except Exception:  # noqa: BLE001
+            return "unknown"
+        if "ONE_RTT" in ks:
+            return "1rtt"
+        if "HANDSHAKE" in ks:
+            return "handshake"
+        if "INITIAL" in ks:
+            return "initial-only"
+        return "no-keys"
 
     def observe_timer(self, now):
         """get_timer() after every API call (an extra, legal API call; recorded as a model op too)."""
@@ -620,8 +690,13 @@ class Tracer:
                     self.violation("closing datagram carries %s" % sorted(names), check="closing-datagram-content")
         closes = [r for r in self.pair.network.wire_log if r.sender == self.name and not r.injected and any(
             p.decrypted and set(p.frame_names()) & {"CONNECTION_CLOSE", "CONNECTION_CLOSE_APP"} for p in obs.by_datagram.get(r.index, []))]
-        if len(closes) > 1:
-            self.violation("%d datagrams carrying CONNECTION_CLOSE" % len(closes), check="close-repeated")
+        # every CONNECTION_CLOSE-bearing datagram belongs to the one datagrams_to_send call that started the closing (a close
+        # round may fill more than one datagram: an Initial header with a long Retry token leaves room for one packet only)
+        legit = {r.index for r in mine[:allowed]}
+        stray = [r for r in closes if r.index not in legit]
+        if stray:
+            self.violation("%d datagram(s) carrying CONNECTION_CLOSE outside the close round (%d in it)" % (len(stray), len(closes) - len(stray)),
+                           check="close-repeated")
         return len(closes)
 
 
@@ -673,6 +748,64 @@ def garbage_bytes(act):
     return bytes([act.get("first", 0x40)]) + bytes(n)
 
 
+_PAIR_CLASS = []
+
+
+def pair_class(sim):
+    """sim.Pair whose emulated listener issues Retry tokens of a chosen total length (`retry_token`, >= 25 bytes): the
+    token of harness/sim's listener (b"simretry" + len + ODCID + 8-byte SCID) followed by filler.  A client that accepted
+    a token about as long as a datagram cannot write an Initial packet any more (no room after the header); with only
+    Initial keys its close round then produces NO datagram.  Local subclass: harness/sim is shared and not edited."""
+    if _PAIR_CLASS:
+        return _PAIR_CLASS[0]
+    from sim import net as simnet
+    from aioquic.buffer import Buffer
+    from aioquic.quic.packet import QuicPacketType, encode_quic_retry, pull_quic_header
+
+    class RetryTokenPair(sim.Pair):
+        retry_token = None
+        retry_scid = None
+
+        def _listener(self, ep, data, src, index):
+            if not (self.retry and self.retry_token):
+                return super()._listener(ep, data, src, index)
+            cfg = ep.configuration
+            now = self.clock.now
+            try:
+                header = pull_quic_header(Buffer(data=data), host_cid_length=cfg.connection_id_length)
+            except ValueError:
+                return super()._listener(ep, data, src, index)
+            if (header.version is not None and header.version not in cfg.supported_versions) or len(data) < 1200 \
+                    or header.packet_type != QuicPacketType.INITIAL:
+                return super()._listener(ep, data, src, index)
+            odcid = header.destination_cid
+            if not header.token:
+                with self._listener_ctx():
+                    import os as _os
+                    scid = _os.urandom(8)
+                token = b"simretry" + bytes([len(odcid)]) + odcid + scid
+                token += b"\x7a" * max(0, self.retry_token - len(token))
+                pkt = encode_quic_retry(version=header.version, source_cid=scid, destination_cid=header.source_cid,
+                                        original_destination_cid=odcid, retry_token=token)
+                self.retry_scid = scid
+                self.listener_log.append((now, "retry", index))
+                self.network.send(pkt, ep, src)
+                return simnet.StepRecord(now, "listener", ep.name, index, 1)
+            tok = header.token
+            if not tok.startswith(b"simretry") or len(tok) < 9 + tok[8] + 8:
+                self.listener_log.append((now, "bad_token", index))
+                return simnet.StepRecord(now, "listener", ep.name, index)
+            n = tok[8]
+            odcid, retry_scid = tok[9:9 + n], tok[9 + n:9 + n + 8]
+            self._create_server(odcid, retry_scid)
+            self.listener_log.append((now, "accept", index))
+            self.network.delivered.append((now, index, src, ep.addr))
+            return self._deliver_to(ep, data, src, index)
+
+    _PAIR_CLASS.append(RetryTokenPair)
+    return RetryTokenPair
+
+
 def do_act(sim, pair, tracers, act, notes):
     kind = act["do"]
     side = act.get("side", "client")
@@ -708,14 +841,26 @@ def do_act(sim, pair, tracers, act, notes):
             else:
                 frames = BAD_FRAMES[which](F)
         was = tracers[side].closing_since
+        was_req = tracers[side].close_req
+        extra = {}
+        rscid = getattr(pair, "retry_scid", None)
+        if side == "client" and epoch == "initial" and rscid is not None and pair.server.conn is None and ep.conn._retry_count:
+            # the client accepted the listener's Retry but no server connection exists (the client cannot answer: its token
+            # fills the datagram).  Its Initial keys now derive from the Retry's SCID: tell the observer, which is where the
+            # puppet takes its keys from, and address the client by its own CID.
+            if rscid not in pair.observer.initial_dcids:
+                pair.observer.initial_dcids.append(rscid)
+            extra = {"dcid": ep.conn.host_cid, "scid": rscid}
         try:
             if kind == "reserved":
                 tracers[side].expect_reserved = True
-                pup.send_frames(epoch, frames, deliver="now", reserved_bits=1)
+                pup.send_frames(epoch, frames, deliver="now", reserved_bits=1, **extra)
             else:
-                pup.send_frames(epoch, frames, deliver="now")
+                pup.send_frames(epoch, frames, deliver="now", **extra)
             if was is None and tracers[side].closing_since is not None:
                 notes.append("effect:%s:%s" % (kind, epoch))       # this very packet started the closing
+            elif was_req is None and tracers[side].close_req is not None:
+                notes.append("effect:%s:%s:close-requested" % (kind, epoch))
         except ValueError as e:
             tracers[side].expect_reserved = False
             notes.append("skipped:%s(%s)" % (kind, str(e)[:40]))
@@ -765,6 +910,19 @@ def do_act(sim, pair, tracers, act, notes):
                 if r.name in MODELLED:
                     return
             del ep.raised[n:]
+    elif kind == "bulk":
+        # a write far larger than the congestion window: the endpoint stays congestion-limited for many round trips
+        if ep.conn is not None and tracers[side].started and not tracers[side].term_popped and ep.handshake_completed:
+            n = len(ep.raised)
+            try:
+                sid = ep.get_next_available_stream_id(act.get("uni", False))
+                ep.send_stream_data(sid, bytes(act.get("size", 200000)), act.get("fin", False))
+            except sim.ApiRaised:
+                pass
+            del ep.raised[n:]
+            pair.pump(ep)
+        else:
+            notes.append("skipped:bulk")
     elif kind == "wait":
         pass
     else:
@@ -785,11 +943,14 @@ def run_scenario(case):
         kw.update(client_versions=[0x1A2A3A4A, sim.V1], server_versions=[sim.V1])
     elif versions == "v2":
         kw.update(versions=[sim.V2, sim.V1])
-    pair = sim.Pair(case["seed"], client_config={"idle_timeout": cfg.get("c_idle", 2.5)},
+    cls = pair_class(sim) if cfg.get("retry_token") else sim.Pair
+    pair = cls(case["seed"], client_config={"idle_timeout": cfg.get("c_idle", 2.5)},
                     server_config={"idle_timeout": cfg.get("s_idle", 2.5)}, fates=build_fates(sim, case),
                     retry=cfg.get("retry", False), congestion_control_algorithm=cfg.get("cc", "reno"),
                     timer_slack=(lambda r: r.uniform(0.0, slack)) if slack else None,
                     eager_server=cfg.get("eager", False), capture_exceptions=True, latency=cfg.get("latency", 0.01), **kw)
+    if cfg.get("retry_token"):
+        pair.retry_token = int(cfg["retry_token"])
     max_slack = slack + (pair.spin_quantum or 0.0) + 1e-9
     tracers = {n: Tracer(pair, pair.endpoint(n), max_slack) for n in ("client", "server")}
     notes = []
@@ -861,6 +1022,7 @@ def run_scenario(case):
                            "closing": None if t.closing_since is None else t.closing_since - t0,
                            "term_time": None if t.term_time is None else t.term_time - t0,
                            "timer_checks": t.timer_checks,
+                           "close_round": None if t.close_round is None else [t.close_round[0] - t0, t.close_round[1], t.close_round[2]],
                            "raised": ["%s:%s" % (r.name, r.exc_type) for r in raised][:5]}
     return res
 
@@ -886,7 +1048,7 @@ def scenario(case):
 
 def gen_case(rng, kind=None):
     kinds = ["close"] * 6 + ["peer_close"] * 4 + ["fatal"] * 3 + ["blackout"] * 3 + ["idle"] * 2 + ["vn"] * 1 + ["corrupt_first"] * 1 + \
-        ["eager_garbage"] * 1 + ["mix"] * 3 + ["manual"] * 2 + ["race"] * 2
+        ["eager_garbage"] * 1 + ["mix"] * 3 + ["manual"] * 2 + ["race"] * 2 + ["retry_close"] * 4 + ["limited_close"] * 2
     kind = kind or rng.choice(kinds)
     idles = [0.6, 1.0, 2.5, 2.5, 5.0]
     cfg = {"c_idle": rng.choice(idles), "s_idle": rng.choice(idles), "retry": rng.random() < 0.15, "cc": rng.choice(["reno", "cubic"]),
@@ -978,6 +1140,93 @@ def gen_case(rng, kind=None):
         else:
             second["epoch"] = "1rtt"
         case["acts"] += [first, second] if rng.random() < 0.7 else [second, dict(first, do="close")]
+    elif kind == "retry_close":
+        # The client accepts a Retry whose token has a chosen length.  Near / above the datagram size an Initial header
+        # leaves no room for a frame (measured on HEAD, 1200-byte datagrams: >= 1131 no CONNECTION_CLOSE frame; >= 1151 no frame at all): with only Initial
+        # keys the close round produces NOTHING; with Handshake / 1-RTT keys the Initial packet type is skipped.  Closing by
+        # close(), by a fatal frame / reserved bits (locally detected error) or by a peer close, at every handshake stage.
+        cfg["retry"] = True
+        cfg["versions"] = rng.choice(["default", "default", "v2"])
+        cfg["retry_token"] = rng.choice([25, 64, 600, 1000, 1095, 1120, 1128, 1129, 1130, 1131, 1132, 1135, 1140, 1145, 1149, 1150, 1151,
+                                         1152, 1155, 1160, 1170, 1200, 1200, 1300, 1400, rng.randrange(1100, 1210), rng.randrange(25, 1500)])
+        if rng.random() < 0.5:
+            case["net"] = net = {}
+        if rng.random() < 0.3:
+            cfg[rng.choice(["c_idle", "s_idle"])] = 60.0
+        # with a Retry: Retry at the client at 0.02, server's flight at 0.04, client's Finished at the server at 0.05
+        stage_t = {"initial": [0.02, 0.02, 0.021, 0.025, 0.03, 0.035, 0.039], "handshake": [0.04, 0.041, 0.045],
+                   "1rtt": [0.05, 0.055, 0.06, 0.1, round(rng.uniform(0.06, 1.5), 3)]}
+        stage = rng.choice(["initial", "initial", "initial", "handshake", "1rtt"])
+        t = rng.choice(stage_t[stage] + [round(rng.uniform(0.02, 0.6), 3)])
+        who = rng.choice(["client", "client", "client", "server"])
+        r = rng.random()
+        if r < 0.45:
+            case["acts"].append({"t": t, "do": rng.choice(["close", "close", "close_nopump", "double_close"]), "side": who,
+                                 "code": rng.randrange(0, 1 << 10)})
+        elif r < 0.8:
+            a = fatal_act()
+            a.update(t=t, side=who, epoch=stage)
+            case["acts"].append(a)
+        elif r < 0.9:
+            a = peer_close_act()
+            a.update(t=t, side=who, epoch=stage)
+            case["acts"].append(a)
+        else:
+            a = fatal_act()
+            a.update(t=t, side=who, epoch=stage)
+            case["acts"] += [{"t": t, "do": "close_nopump", "side": who, "code": rng.randrange(0, 1 << 10)}, a]
+        for _ in range(rng.choice([0, 0, 1, 2])):
+            case["acts"].append(rng.choice([
+                lambda: {"t": round(t + rng.choice([-0.01, 0.0, 0.05, 0.3, 0.7]), 3), "do": "timer_early", "side": who},
+                lambda: {"t": round(t + rng.choice([0.0, 0.001, 0.1, 0.5]), 3), "do": "extra_send", "side": who},
+                lambda: {"t": round(t + rng.choice([0.0, 0.01, 0.2]), 3), "do": "garbage", "side": who, "len": rng.choice([3, 30, 200]),
+                         "variant": rng.choice(["short", "truncated", "badversion", "vn", "small_initial"])},
+                lambda: {"t": round(t + rng.choice([0.05, 0.3]), 3), "do": "close", "side": who, "code": 7}])())
+        case["acts"] = [a for a in case["acts"] if a["t"] >= 0]
+        # a handshake through an Initial header with a few bytes of room crawls (a byte or two of CRYPTO per datagram) and
+        # keeps both idle timers re-armed for minutes (O7): end such runs by late closes (always for tokens in that range)
+        if 1090 <= cfg["retry_token"] < 1175 or rng.random() < 0.6:
+            case["acts"] += [{"t": 3.5, "do": "close", "side": "client", "code": 35}, {"t": 3.6, "do": "close", "side": "server", "code": 36}]
+    elif kind == "limited_close":
+        # closing while the sender is limited: (amp) a server that heard one datagram only (every later client datagram is
+        # lost) runs into the 3x anti-amplification budget; (cwnd) a write far larger than the congestion window.  The close
+        # round is subject to neither limit: the closing period starts at the first datagrams_to_send all the same.
+        if rng.random() < 0.5:
+            cfg["retry"] = False
+            cfg["s_idle"] = rng.choice([2.5, 5.0, 5.0, 60.0])
+            case["acts"].append({"t": 0.001, "do": "blackout", "dir": "c2s"})
+            t = rng.choice([0.011, 0.015, 0.05, 0.25, 0.45, 0.9, round(rng.uniform(0.011, 2.0), 3)])
+            r = rng.random()
+            if r < 0.6:
+                case["acts"].append({"t": t, "do": rng.choice(["close", "close", "close_nopump", "double_close"]), "side": "server",
+                                     "code": rng.randrange(0, 1 << 10)})
+            elif r < 0.85:
+                a = fatal_act()
+                a.update(t=t, side="server", epoch="initial")
+                case["acts"].append(a)
+            else:
+                a = peer_close_act()
+                a.update(t=t, side="server", epoch="initial")
+                case["acts"].append(a)
+            case.pop("traffic", None)
+        else:
+            who = rng.choice(["client", "server"])
+            t = round(rng.uniform(0.07, 0.5), 3)
+            case["acts"].append({"t": t, "do": "bulk", "side": who, "size": rng.choice([40000, 200000, 1000000]), "fin": rng.random() < 0.5})
+            tc = round(t + rng.choice([0.0, 0.001, 0.011, 0.021, 0.05, 0.2, rng.uniform(0.0, 0.5)]), 3)
+            closer = rng.choice([who, who, "client", "server"])
+            r = rng.random()
+            if r < 0.6:
+                case["acts"].append({"t": tc, "do": rng.choice(["close", "close", "close_nopump", "double_close"]), "side": closer,
+                                     "code": rng.randrange(0, 1 << 10)})
+            elif r < 0.85:
+                a = fatal_act()
+                a.update(t=tc, side=closer, epoch="1rtt")
+                case["acts"].append(a)
+            else:
+                a = peer_close_act()
+                a.update(t=tc, side=closer, epoch="1rtt")
+                case["acts"].append(a)
     elif kind == "manual":
         for _ in range(rng.randint(2, 6)):
             r = rng.random()
@@ -1082,7 +1331,8 @@ def run(ctx):
              "anomaly_timer_in_past_runs": 0, "busy_loop_firings": 0, "tracing_stopped": {}, "skipped_actions": 0, "injected_close_started_closing": {}, "closing_datagrams_seen": 0,
              "virtual_seconds": 0.0, "wire_datagrams": 0,
              "composed_model_ops": {}, "composed_timer_source": {}, "composed_handle_timer_branch": {}, "composed_send_pacing": {},
-             "pacing_reset_in_tree": PACING_RESET()}
+             "pacing_reset_in_tree": PACING_RESET(), "close_begin_unconditional_in_tree": CLOSE_BEGIN_UNCONDITIONAL(),
+             "close_rounds": {}, "close_rounds_without_datagram": 0, "retry_token_lengths": {}}
     B = 50
     for i in range(0, len(cases), B):
         chunk = cases[i:i + B]
@@ -1103,10 +1353,18 @@ def run(ctx):
                     stats["injected_close_started_closing"][nt[7:]] = stats["injected_close_started_closing"].get(nt[7:], 0) + 1
                 else:
                     stats["skipped_actions"] += 1
-            for s in r["sides"].values():
+            if scn["cfg"].get("retry_token"):
+                b = "%d-%d" % (scn["cfg"]["retry_token"] // 100 * 100, scn["cfg"]["retry_token"] // 100 * 100 + 99)
+                stats["retry_token_lengths"][b] = stats["retry_token_lengths"].get(b, 0) + 1
+            for side_name, s in r["sides"].items():
                 stats["api_calls_traced"] += s["ops"]
                 stats["timer_checks"] += s["timer_checks"]
                 stats["closing_datagrams_seen"] += s["closes_on_wire"] or 0
+                if s["close_round"] is not None:
+                    k = "%s/%s/%s" % (side_name, s["close_round"][2], "datagrams" if s["close_round"][1] else "NOTHING")
+                    stats["close_rounds"][k] = stats["close_rounds"].get(k, 0) + 1
+                    if not s["close_round"][1]:
+                        stats["close_rounds_without_datagram"] += 1
                 for k, v in s["opnames"].items():
                     stats["model_ops"][k] = stats["model_ops"].get(k, 0) + v
                 for src, dst in (("fops", "composed_model_ops"), ("fsrc", "composed_timer_source"),
@@ -1126,9 +1384,10 @@ def run(ctx):
         [tm, tf],
         "seeded scenario grammar over real QuicConnection pairs (kinds: close / peer close per packet number space / fatal frame / "
         "blackout / idle / version negotiation / corrupted first datagrams / garbage to an eager server / mixes / manual API orders / "
-        "local close racing a peer close; "
+        "local close racing a peer close / Retry tokens of 25..1500 bytes followed by close(), fatal frame, reserved bits or peer close at "
+        "every handshake stage (close rounds that produce NO datagram) / closes while amplification- or congestion-limited; "
         "lossy networks, Retry, v1/v2, timer slack); one evaluation = one endpoint of one scenario, every traced API call is one model "
-        "op compared on result + state class + queue length; distinct = distinct op-trace encoding; non-trivial = started, >= 6 ops and "
+        "op compared on result + state class + queue length + _close_pending + _close_at; distinct = distinct op-trace encoding; non-trivial = started, >= 6 ops and "
         "termination reported",
         {"c09": stats})
 
